@@ -351,3 +351,65 @@ def c10(tier):
 
 def c33(tier):
     return all_engine_a(tier, ("c01", "c02", "c03", "c04", "c05", "c06", "c07", "c28"))
+
+
+# ------------------------------------------------------------------------------------------ C28 viral attributes
+from vt.astb import viral_def  # noqa: E402
+
+VA = "Viral Attribute"
+
+
+def _vstructs(vt):
+    return [
+        structure("DS_V1", [("Id_1", "Integer", I, False), ("Id_2", "String", I, False), ("Me_1", "Integer", M, True), ("At_1", vt, VA, True)]),
+        structure("DS_V2", [("Id_1", "Integer", I, False), ("Id_2", "String", I, False), ("Me_1", "Integer", M, True), ("At_1", vt, VA, True)]),
+        structure("DS_V3", [("Id_1", "Integer", I, False), ("Me_3", "Integer", M, True), ("At_1", vt, VA, True)]),
+        structure("DS_V4", [("Id_1", "Integer", I, False), ("Id_2", "String", I, False), ("Me_4", "Integer", M, True)]),
+    ]
+
+
+RULES = {
+    # associative/commutative table, pair clause first
+    "enum_pair_first": (lambda: viral_def("vp1", "At_1", enumerated=[(["a", "b"], "c"), (["a"], "a"), (["b"], "b")], default="c"), "String"),
+    # pair clause declared AFTER the single-value clauses (pair must still win)
+    "enum_pair_last": (lambda: viral_def("vp1", "At_1", enumerated=[(["a"], "a"), (["b"], "b"), (["a", "b"], "c")], default="b"), "String"),
+    # non-associative table
+    "enum_nonassoc": (lambda: viral_def("vp1", "At_1", enumerated=[(["a", "b"], "c"), (["c"], "a"), (["a"], "b")], default="c"), "String"),
+    "enum_default_only": (lambda: viral_def("vp1", "At_1", enumerated=[], default="a"), "String"),
+    "agg_min": (lambda: viral_def("vp1", "At_1", aggregate="min"), "Integer"),
+    "agg_max": (lambda: viral_def("vp1", "At_1", aggregate="max"), "Integer"),
+    "agg_sum": (lambda: viral_def("vp1", "At_1", aggregate="sum"), "Integer"),
+    "agg_avg": (lambda: viral_def("vp1", "At_1", aggregate="avg"), "Number"),
+}
+
+
+def c28(tier):
+    n = 2 if tier == "quick" else 3
+    out = []
+    rules = list(RULES) if tier != "quick" else ["enum_pair_first", "enum_pair_last", "enum_nonassoc", "agg_min", "agg_max", "agg_sum", "agg_avg"]
+    for rn in rules:
+        mk, vt = RULES[rn]
+        st = _vstructs(vt)
+
+        def V(tid, expr, nrows=n, mk=mk, st=st, rn=rn):
+            return dict(id="%s_%s" % (rn, tid), ast=start(mk(), assign("DS_r", expr)), structs=st, nrows=nrows)
+        out.append(V("dsds_plus", binop("+", "DS_V1", "DS_V2")))
+        out.append(V("dsds_one_side", binop("+", "DS_V1", "DS_V4"))) if False else None
+        out.append(V("dssc_plus", binop("+", "DS_V1", 1)))
+        out.append(V("unary_abs", unop("abs", "DS_V1")))
+        out.append(V("cmp_scalar", binop(">", "DS_V1", 0)))
+        out.append(V("agg_sum_group", agg("sum", "DS_V1", "group by", ["Id_1"]), 3))
+        out.append(V("agg_max_nogroup", agg("max", "DS_V1"), 3))
+        out.append(V("join_inner", join("inner_join", [("DS_V1", "a"), ("DS_V3", "b")])))
+        out.append(V("join_left", join("left_join", [("DS_V1", "a"), ("DS_V3", "b")])))
+        out.append(V("filter", filter_("DS_V1", binop(">", "Me_1", 0))))
+        out.append(V("calc", calc("DS_V1", [("measure", "Me_9", binop("+", "Me_1", 1))])))
+        out.append(V("rename", rename("DS_V1", [("Me_1", "Me_9")])))
+        out.append(V("assign", var("DS_V1")))
+        out.append(V("union", setop("union", ["DS_V1", "DS_V2"])))
+        out.append(V("setdiff", setop("setdiff", ["DS_V1", "DS_V2"])))
+        out.append(V("if_ds_ds", if_(binop(">", member("DS_V1", "Me_1"), 0), "DS_V1", "DS_V2")))
+        if tier != "quick":
+            out.append(V("d2_plus_plus", binop("+", par(binop("+", "DS_V1", "DS_V2")), "DS_V1")))
+            out.append(V("agg_of_sum", agg("sum", par(binop("+", "DS_V1", "DS_V2")), "group by", ["Id_1"]), 2))
+    return [t for t in out if t is not None]
